@@ -37,7 +37,7 @@ from vlib import passcat
 PID = 'C10'
 
 # tier -> multiplier on Entry.quick / Entry.thorough (tuning knob)
-SCALE = {'quick': 1.0, 'thorough': 1.0}
+SCALE = {'quick': 1.0, 'thorough': 0.5}
 MIN_CASES_PER_ENTRY = 5
 # entries whose documented algorithm is an unbounded search / retry loop: a
 # watchdog expiry there is "search not finished" (case not evaluated), not an
